@@ -296,6 +296,24 @@ theorem loop_period_congr (rc' : Nat) (k : Nat) (s : St K)
       rw [step_iter] at hi1
       exact h i (by omega) hi2
 
+/-- "the tolerance is met": below it (the `break` test inside the loop) or not above it (the test before the loop) -/
+def MetTol [LT K] (tol v : K) : Prop := v < tol ∨ ¬ tol < v
+
+/-- whenever the `stopped` flag is set, the stored residual meets the tolerance (entry states that are stopped already —
+    the start met the tolerance — included) -/
+theorem loop_stopMet (k : Nat) (s : St K)
+    (h : s.stopped = true → MetTol tol (dot s.r (prec s.r))) :
+    (loop mv resid prec bInner tol rc maxIter k s).stopped = true →
+      MetTol tol (dot (loop mv resid prec bInner tol rc maxIter k s).r
+        (prec (loop mv resid prec bInner tol rc maxIter k s).r)) := by
+  induction k with
+  | zero => exact h
+  | succ k ih =>
+    rw [loop_succ_right]
+    split
+    · exact ih
+    · exact fun hs => Or.inl ((step_stopped_iff mv resid prec bInner tol rc _).1 hs)
+
 /-- whenever the `stopped` flag is set, the stored residual meets the break test -/
 theorem loop_stopOk (k : Nat) (s : St K)
     (h : s.stopped = true → dot s.r (prec s.r) < tol) :
